@@ -311,7 +311,7 @@ def c07_observations(pd, tracer, stats):
         d = view.d
         lin, lout = d['_lin'], d['_lout']
         seen = set()
-        for (i0_old, j_old, name, reader, name_id) in act.live_obs:
+        for (i0_old, j_old, name, reader, name_id, later) in act.live_obs:
             v = pd.vid(name)
             if v is None:
                 continue
@@ -349,6 +349,7 @@ def c07_observations(pd, tracer, stats):
                     bad.append('LIVE_VARS_IN(stmt %d)' % nn)
                 if bad:
                     yield {'kind': 'live', 'act': act, 'view': view, 'name': name, 'i': i, 'j': j, 'var': v, 'reader': reader,
+                           'reader_defined_later': later,
                            'where': 'except_type' if name_id in pd.except_type_names else
                                     ('class_body' if name_id in pd.class_body_names else None),
                            'detail': 'value of %r in place after step %d (node %d) is read at step %d (node %d)%s but is missing from %s' % (
